@@ -477,6 +477,10 @@ void profile_cfg_more(const std::string &prof, uint64_t seed, RunCfg &c, Rng &r)
     c.beh_w = {60, 4, 2, 1, 3, 1, 10, 8, 3, 2, 2, 0, 3, 3, 1};
     c.knobs["nactive"] = 1 + (int64_t)r.below(c.servers.size());
     for (auto &s : c.servers) { if (r.chance(0.15)) s.tcp_refuse = true; else if (r.chance(0.1)) s.tcp_blackhole = true; }
+    // the legacy polling call is given arrays larger than the 16 sockets its bitmask can describe in half of the runs, and a share
+    // of runs keeps more than 16 sockets open at once (one query per UDP socket, mostly silent servers, a burst of requests)
+    if (r.chance(0.5)) c.knobs["getsock_numsocks"] = r.chance(0.2) ? 1 + (int64_t)r.below(15) : 17 + (int64_t)r.below(31);
+    if (r.chance(0.12)) { c.knobs["c10_many_sockets"] = 18 + (int64_t)r.below(10); c.udp_max_queries = 1; c.beh_w = {25, 0, 0, 0, 0, 0, 0, 75, 0, 0, 0, 0, 0, 0, 0}; if (c.flags >= 0) c.flags &= ~ARES_FLAG_USEVC; c.timeout_ms = 1500 + (int)r.below(2000); c.tries = 2; }
   }
 }
 
@@ -610,7 +614,9 @@ bool profile_plan_more(const RunCfg &c, Rng &r, std::vector<Step> &plan) {
     std::vector<int> w = weights({{S_REQ, 28}, {S_ADV, 38}, {S_FORGE, 22}, {S_STALL, 3}, {S_NETOP, 5}, {S_FAULT, 2}, {S_PARTITION, 2}});
     w[S_FORGE] = 22;   // the adversary also acts in runs without transport faults
     gen(c, r, plan, w, 25, 150);
-    for (auto &s : plan) { if (s.k == S_STALL) s.a = (int64_t)r.below(2500); if (s.k == S_REQ && (s.d % R_NREACT) == R_CANCEL) s.d++; }
+    // (most stalls are short; one in five crosses the 120 s the cookie regression logic waits, so state that depends on "a valid
+    //  cookie was seen since" is exercised under forgery too)
+    for (auto &s : plan) { if (s.k == S_STALL) s.a = r.chance(0.8) ? (int64_t)r.below(2500) : 121000 + (int64_t)r.below(200000); if (s.k == S_REQ && (s.d % R_NREACT) == R_CANCEL) s.d++; }
     return true;
   }
   if (p == "C08") {
@@ -644,6 +650,7 @@ bool profile_plan_more(const RunCfg &c, Rng &r, std::vector<Step> &plan) {
     return true;
   }
   if (p == "C10") { gen(c, r, plan, weights({{S_REQ, 28}, {S_ADV, 40}, {S_CANCEL, 3}, {S_STALL, 2}, {S_NETOP, 5}, {S_FAULT, 14}, {S_CHUNK, 3}, {S_SETSRV, 3}, {S_REINIT, 1}, {S_PARTITION, 1}}), 20, 140);
+    if (c.knob("c10_many_sockets", 0) > 0) { std::vector<Step> b; for (int64_t i = 0; i < c.knob("c10_many_sockets"); i++) { Step s; s.k = S_REQ; s.a = (int64_t)r.below(1000); s.b = (int64_t)r.below(1000); s.c = (int64_t)r.below(1000000); s.d = ((int64_t)r.below(1000) / R_NREACT) * R_NREACT + R_NONE; b.push_back(s); } plan.insert(plan.begin(), b.begin(), b.end()); }
     for (auto &s : plan) if (s.k == S_FAULT && r.chance(0.6)) s.a = (int64_t)r.below(5);   // bias to creation-path faults: socket/setsockopt/bind/connect/getsockname
     return true; }
   return false;
